@@ -13,6 +13,7 @@ from bitcoin.core import (CTransaction, CMutableTransaction, CBlock, CBlockHeade
 from bitcoin.core.script import CScript
 
 ID = 'C02'
+THREADSAFE = True      # cases touch no process-wide setting (no chain selection): the runner also runs them from several threads at once
 LEVEL = 'exploration'
 RULE = ('generated transactions x witness variants {absent, no-entry object, all-empty stacks, random A, random B, A with one '
         'byte flipped} x {immutable, mutable}: GetTxid==dSHA256(reference stripped encoding) for every variant, '
@@ -88,6 +89,17 @@ def check_tx(case):
             if o.has_witness() != nonempty:
                 raise Violation('tx/has_witness', 'has_witness()=%s, expected %s (variant %r)' % (o.has_witness(), nonempty, name))
         _pair_checks('tx', a, b, full)
+        # the script fields held as memoryview / bytearray (bytes sliced out of a larger buffer, never wrapped in CScript): the same
+        # transaction - identifiers, equality and hash as for the twin built from CScript objects, also through the immutable copy
+        if (case.get('order', 0) + len(seen_hash)) % 3 == 0:
+            for knd, wrap in (('memoryview', lambda x: memoryview(bytes(x))), ('bytearray', bytearray)):
+                for mut_ in (True, False):
+                    o = libx.call('tx/build-scripts-as-' + knd, libx.mk_tx, m, mut_, 'auto', wrap)[1]
+                    frozen_ = CTransaction.from_tx(o)
+                    for oo, what_ in ((o, 'object'), (frozen_, 'immutable copy')):
+                        if oo.serialize() != full or oo.GetTxid() != want_txid or oo.GetHash() != H.dsha(full) or not (oo == a) or hash(oo) != hash(a):
+                            raise Violation('tx/scripts-as-' + knd, '%s transaction whose scripts are held as %s (%s): serialisation / identifiers / '
+                                            'equality differ from the twin built from CScript objects' % ('mutable' if mut_ else 'immutable', knd, what_))
         # the same five observations on FRESH objects in a case-chosen order: no reading may colour a later one (e.g. the
         # witness-stripped serialisation requested before the witness hash, or hash() before GetTxid())
         perm = list(itertools.permutations(('ser', 'ser-stripped', 'gethash', 'gettxid', 'pyhash')))[(case.get('order', 0) + len(seen_hash)) % 120]
@@ -296,7 +308,23 @@ def check_tx0(case):
     return {'nt': True, 'evals': 2, 'cls': ['tx-without-inputs']}
 
 
+def check_pickle(case):
+    """IF the objects can be pickled at all: hashed here, loaded in another interpreter (another hash seed), they report what an
+    equal-valued twin reports over there"""
+    m = W.tx_from_json(case['tx'])
+    objs = [libx.mk_tx(m, False), libx.mk_tx(dict(m, wit=None), False), libx.mk_tx(m, False).vin[0], libx.mk_tx(m, False).vin[0].prevout,
+            libx.mk_tx(m, False).vout[0], CBlock.deserialize(W.enc_block({'version': 1, 'prev': bytes(32), 'root': bytes(32), 'time': 1, 'bits': 2, 'nonce': 3, 'txs': [m]})),
+            libx.mk_tx(m, True)]
+    bad = libx.pickle_across_processes(objs)
+    if bad:
+        raise Violation('pickle/foreign-hash', 'objects hashed, pickled and loaded in another interpreter disagree with an equal-valued twin there '
+                        '(==, hash(), set membership or identifiers): %s' % ', '.join(type(objs[i]).__name__ for i in bad))
+    return {'nt': bad is not None, 'evals': len(objs), 'cls': ['pickle-supported' if bad is not None else 'pickle-not-supported']}
+
+
 def check_case(case):
+    if case.get('kind') == 'pickle':
+        return check_pickle(case)
     return {'tx': check_tx, 'tx0': check_tx0, 'block': check_block, 'parts': check_parts}[case['kind']](case)
 
 
@@ -341,6 +369,8 @@ def s_parts(draw):
 
 
 def t_tx(ctx):
+    if ctx.shard == 1 % ctx.nshards:
+        ctx.run({'kind': 'pickle', 'tx': {'version': 2, 'vin': [['07' * 32, 1, '51', 5], ['08' * 32, 0, '', 6]], 'vout': [[5, '51']], 'wit': [['aa'], []], 'locktime': 9}})
     ctx.hyp(s_tx(), ctx.n(500, 8000))
     # built corners: witness items / scripts of 8 kB..70 kB (single large writes), stacks of 252..254 and 1,000 items (the item
     # count's CompactSize grows), a coinbase-shaped transaction (single null outpoint) carrying witness data, sequence 0
